@@ -739,6 +739,82 @@ func runC10(c *Ctx) {
 		c.Check(fname(ur)+"#root-recomputed-unless-finalised-and-empty", ur.Pos(), n > 0 && bad == 0 && len(rootStores) > 0, ifelse(n > 0 && bad == 0 && len(rootStores) > 0, "every return follows the Root store or a finalisation", fmt.Sprintf("%d of %d returns of updateRoot skip the recomputation of the storage root without the dirty slots having been finalised first", bad, n)))
 	}
 
+	// ------------------------------------------------------------ K9
+	c.Rule("C10.K9", "GATE+ALWAYS-WITH", "a removed validator is gone from the live state as it is from a reopened one: a record that was deleted stays in the object map, flagged deleted; (a) GetValidators puts a record into the set only after testing that flag, and (b) every function of core/state that sets Validator.deleted = true also drops the cached sorted set (validatorsSorted) on the same paths. Otherwise the live object lists a validator that a state reopened from the same roots does not — and a state carried across blocks (side-chain verification) distributes rewards to it and deletes it twice (the offline count wraps below zero)")
+	c.Min(3)
+	{
+		deletedF := w.Field(statePkg, "Validator", "deleted")
+		sortedF := w.Field(statePkg, "StateDB", "validatorsSorted")
+		gv := w.Fn(statePkg, "StateDB", "GetValidators")
+		c.sawFunc(fname(gv))
+		// (a) appends inside GetValidators (and its Range callback)
+		nApp := 0
+		for _, fn := range withClosures(gv) {
+			for _, b := range fn.Blocks {
+				for _, in := range b.Instrs {
+					call, ok := in.(*ssa.Call)
+					if !ok {
+						continue
+					}
+					bi, isB := call.Call.Value.(*ssa.Builtin)
+					if !isB || bi.Name() != "append" {
+						continue
+					}
+					if ownerName(deref(sliceElem(call.Type()))) != "Validator" {
+						continue
+					}
+					nApp++
+					c.sites++
+					tested := false
+					for _, a := range atomsOf(factsAt(b)) {
+						if a.Kind == "true" && !a.Truth {
+							if f, _ := loadedField(stripConv(a.X)); f == deletedF {
+								tested = true
+							}
+						}
+					}
+					c.Check(fmt.Sprintf("%s#lists-only-live-records-%d", fname(gv), nApp), call.Pos(), tested, ifelse(tested, "appended under deleted == false", "GetValidators collects every object of the map, also records flagged deleted: the live state lists a validator that was removed (and that a reopened state does not have)"))
+				}
+			}
+		}
+		if nApp == 0 {
+			c.Undecided(fname(gv)+"#lists-only-live-records", gv.Pos(), "no append of validator records found in GetValidators")
+		}
+		// (b) the flag is raised together with dropping the cache
+		nFlag := 0
+		for _, fn := range w.FuncsIn(statePkg) {
+			if fn.Blocks == nil || strings.HasSuffix(w.fileOf(fn.Pos()), "_test.go") {
+				continue
+			}
+			var drops []ssa.Instruction
+			for _, fw := range fieldWrites(fn) {
+				if fw.Field == sortedF {
+					drops = append(drops, fw.Instr)
+				}
+			}
+			for _, fw := range fieldWrites(fn) {
+				if fw.Field != deletedF {
+					continue
+				}
+				st, ok := fw.Instr.(*ssa.Store)
+				if !ok {
+					continue
+				}
+				if cv, isC := st.Val.(*ssa.Const); !isC || cv.Value == nil || cv.Value.String() != "true" {
+					continue
+				}
+				nFlag++
+				c.sites++
+				c.sawFunc(fname(fn))
+				ok2 := alwaysWith(st, drops)
+				c.Check(fmt.Sprintf("%s#deleted-flag-with-cache-drop-%d", fname(fn), nFlag), st.Pos(), ok2, ifelse(ok2, "validatorsSorted is dropped on the same paths", "a record is flagged deleted while the cached sorted set may still contain it: GetValidators keeps answering with the removed validator"))
+			}
+		}
+		if nFlag == 0 {
+			c.Undecided(statePkg+"#deleted-flag-stores", token.NoPos, "no store of Validator.deleted = true found")
+		}
+	}
+
 	// ------------------------------------------------------------ K5
 	c.Rule("C10.K5", "ALWAYS-WITH", "stateObject.updateTrie records in originStorage every value it flushes to the storage trie — update or delete — before the trie write, with the same key and value: the live object's idea of the committed value must equal what a reopened state reads")
 	c.Min(2)
@@ -1134,4 +1210,11 @@ func ctorGivesFreshContainer(fn *ssa.Function, f *types.Var) bool {
 		}
 	}
 	return false
+}
+
+func sliceElem(t types.Type) types.Type {
+	if sl, ok := t.Underlying().(*types.Slice); ok {
+		return sl.Elem()
+	}
+	return t
 }
